@@ -178,4 +178,180 @@ Result(t, lt, vals) ==
   IF HasType(t, lt, "int")
   THEN LET v == Eval(t, lt, vals) IN [t |-> "int", neg |-> v < 0, abs |-> Abs(v)]
   ELSE [t |-> "bool", b |-> Eval(t, lt, vals)]
+-----------------------------------------------------------------------------
+(* Prefix operators against postfix suffixes (manual / parser grammar:      *)
+(*     Negation ::= ('!' | '-')* Access      Access ::= Atom Suffix*        *)
+(* so a prefix operator applies to the whole access expression:             *)
+(* -2.0f64.pow(2.0) is -(2.0f64.pow(2.0)) = -4, not (-2.0f64).pow(2.0)).    *)
+(*                                                                          *)
+(*   px = [pre |-> sequence of "neg"/"not", atom |-> atom name,             *)
+(*         post |-> sequence of suffix names, ctx |-> binary context]       *)
+(*   text = pre atom post  inside  `10 - _`, `10 * _`, `_ - 10`, ...        *)
+(* Values are typed dyadic rationals [ty, n, d] (n/d, d a power of two);    *)
+(* for booleans n is 0/1, for strings n says whether the text contains "a". *)
+TV(ty, n, d) == [ty |-> ty, n |-> n, d |-> d]
+ErrTV == TV("err", 0, 1)       \* ill typed
+AnyTV == TV("any", 0, 1)       \* not claimed
+FloatTy == {"f64", "f32"}
+
+AtomTV(a) ==
+  CASE a = "lit_2p0_f64"   -> TV("f64", 2, 1)    \* 2.0f64
+    [] a = "lit_1p5_f64"   -> TV("f64", 3, 2)    \* 1.5f64
+    [] a = "lit_0p5_f64"   -> TV("f64", 1, 2)    \* 0.5f64
+    [] a = "lit_2e0_f64"   -> TV("f64", 2, 1)    \* 2e0f64
+    [] a = "lit_15em1_f64" -> TV("f64", 3, 2)    \* 15e-1f64
+    [] a = "lit_2p25_f64"  -> TV("f64", 9, 4)    \* 2.25f64
+    [] a = "lit_2p5_f32"   -> TV("f32", 5, 2)    \* 2.5f32
+    [] a = "lit_1p5_f32"   -> TV("f32", 3, 2)    \* 1.5f32
+    [] a = "lit_3_i64"     -> TV("i64", 3, 1)    \* 3i64
+    [] a = "var_f"         -> TV("f64", 5, 2)    \* xf  (let xf: f64 = 2.5)
+    [] a = "var_g"         -> TV("f32", 3, 2)    \* xg  (let xg: f32 = 1.5)
+    [] a = "var_i"         -> TV("i64", 3, 1)    \* xi
+    [] a = "var_b"         -> TV("bool", 1, 1)   \* xb  (true)
+    [] a = "var_s"         -> TV("str", 1, 1)    \* xs  ("ab")
+    [] a = "var_r"         -> TV("rec", 0, 1)    \* r = { x: 1.5f64, b: true, n: 3i64 }
+    [] a = "var_o"         -> TV("opt", 4, 1)    \* o: i64? = Some(4)
+    [] a = "paren_lit"     -> TV("f64", 3, 2)    \* (1.5f64)
+    [] a = "paren_var"     -> TV("f64", 5, 2)    \* (xf)
+    [] a = "paren_neg"     -> TV("f64", 0 - 3, 2)   \* (-1.5f64)
+    [] a = "call_f"        -> TV("f64", 5, 2)    \* gf()
+    [] a = "call_i"        -> TV("i64", 3, 1)    \* gi()
+    [] a = "lit_true"      -> TV("bool", 1, 1)   \* true
+    [] a = "lit_str"       -> TV("str", 1, 1)    \* "ab"
+Atoms == {"lit_2p0_f64", "lit_1p5_f64", "lit_0p5_f64", "lit_2e0_f64", "lit_15em1_f64", "lit_2p25_f64", "lit_2p5_f32",
+          "lit_1p5_f32", "lit_3_i64", "var_f", "var_g", "var_i", "var_b", "var_s", "var_r", "var_o", "paren_lit",
+          "paren_var", "paren_neg", "call_f", "call_i", "lit_true", "lit_str"}
+Suffixes == {"abs", "ceil", "floor", "round", "pow2", "sqrt", "is_nan", "to_string", "field_x", "field_b", "field_n",
+             "try", "contains_a"}
+
+FloorQ(n, d) == IF n >= 0 THEN n \div d ELSE 0 - ((0 - n + d - 1) \div d)
+SqrtTV(tv) ==          \* only perfect squares of the menu are claimed
+  CASE tv.n = 4 /\ tv.d = 1 -> TV(tv.ty, 2, 1) [] tv.n = 9 /\ tv.d = 4 -> TV(tv.ty, 3, 2)
+    [] tv.n = 1 /\ tv.d = 4 -> TV(tv.ty, 1, 2) [] tv.n = 1 /\ tv.d = 1 -> TV(tv.ty, 1, 1)
+    [] tv.n = 25 /\ tv.d = 4 -> TV(tv.ty, 5, 2) [] tv.n = 0 -> TV(tv.ty, 0, 1)
+    [] OTHER -> AnyTV
+
+ApplySuffix(tv, s) ==
+  IF tv.ty \in {"err", "any"} THEN tv
+  ELSE IF s \in {"abs", "ceil", "floor", "round", "pow2", "sqrt", "is_nan"}
+  THEN IF tv.ty \notin FloatTy THEN ErrTV
+       ELSE CASE s = "abs"   -> TV(tv.ty, Abs(tv.n), tv.d)
+              [] s = "floor" -> TV(tv.ty, FloorQ(tv.n, tv.d), 1)
+              [] s = "ceil"  -> TV(tv.ty, 0 - FloorQ(0 - tv.n, tv.d), 1)
+              [] s = "round" -> TV(tv.ty, (IF tv.n < 0 THEN 0 - 1 ELSE 1) * ((2 * Abs(tv.n) + tv.d) \div (2 * tv.d)), 1)
+              [] s = "pow2"  -> TV(tv.ty, tv.n * tv.n, tv.d * tv.d)
+              [] s = "sqrt"  -> SqrtTV(tv)
+              [] s = "is_nan" -> TV("bool", 0, 1)
+  ELSE IF s = "to_string"
+  THEN IF tv.ty \in FloatTy \cup {"i64", "bool"}
+       THEN TV("str", IF tv.ty = "bool" /\ tv.n = 0 THEN 1 ELSE 0, 1)     \* "false" contains an a
+       ELSE IF tv.ty = "str" THEN AnyTV ELSE ErrTV
+  ELSE IF s \in {"field_x", "field_b", "field_n"}
+  THEN IF tv.ty # "rec" THEN ErrTV
+       ELSE CASE s = "field_x" -> TV("f64", 3, 2) [] s = "field_b" -> TV("bool", 1, 1) [] s = "field_n" -> TV("i64", 3, 1)
+  ELSE IF s = "try" THEN (IF tv.ty = "opt" THEN TV("i64", tv.n, 1) ELSE ErrTV)
+  ELSE IF s = "contains_a" THEN (IF tv.ty = "str" THEN TV("bool", tv.n, 1) ELSE ErrTV)
+  ELSE ErrTV
+
+ApplyPrefix(tv, p) ==
+  IF tv.ty \in {"err", "any"} THEN tv
+  ELSE IF p = "neg" THEN (IF tv.ty \in FloatTy \cup {"i64"} THEN TV(tv.ty, 0 - tv.n, tv.d) ELSE ErrTV)
+  ELSE (IF tv.ty = "bool" THEN TV("bool", 1 - tv.n, 1) ELSE ErrTV)
+
+RECURSIVE ApplySuffixes(_, _)
+ApplySuffixes(tv, ss) == IF ss = <<>> THEN tv ELSE ApplySuffixes(ApplySuffix(tv, Head(ss)), Tail(ss))
+RECURSIVE ApplyPrefixes(_, _)      \* the innermost prefix is the last one
+ApplyPrefixes(tv, ps) == IF ps = <<>> THEN tv ELSE ApplyPrefix(ApplyPrefixes(tv, Tail(ps)), Head(ps))
+
+(* binary context: the other operand is 10 of the same type (true for booleans) *)
+Contexts == {"none", "sub_r", "mul_r", "sub_l", "add_r", "lt_r", "and_r"}
+ApplyCtx(tv, c) ==
+  IF c = "none" \/ tv.ty \in {"err", "any"} THEN tv
+  ELSE IF c = "and_r" THEN (IF tv.ty = "bool" THEN TV("bool", tv.n, 1) ELSE ErrTV)       \* true && _
+  ELSE IF tv.ty \notin FloatTy \cup {"i64"} THEN ErrTV
+  ELSE CASE c = "sub_r" -> TV(tv.ty, 10 * tv.d - tv.n, tv.d)       \* 10 - _
+         [] c = "add_r" -> TV(tv.ty, 10 * tv.d + tv.n, tv.d)       \* 10 + _
+         [] c = "sub_l" -> TV(tv.ty, tv.n - 10 * tv.d, tv.d)       \* _ - 10
+         [] c = "mul_r" -> TV(tv.ty, 10 * tv.n, tv.d)              \* 10 * _
+         [] c = "lt_r"  -> TV("bool", IF 10 * tv.d < tv.n THEN 1 ELSE 0, 1)   \* 10 < _
+
+(* the grammar's reading, and the reading in which the prefix operators     *)
+(* bind tighter than the suffixes (only used to tell whether a case can     *)
+(* distinguish the two)                                                     *)
+PxVal(px) == ApplyCtx(ApplyPrefixes(ApplySuffixes(AtomTV(px.atom), px.post), px.pre), px.ctx)
+PxAlt(px) == ApplyCtx(ApplySuffixes(ApplyPrefixes(AtomTV(px.atom), px.pre), px.post), px.ctx)
+
+PxCore(px) == ApplyPrefixes(ApplySuffixes(AtomTV(px.atom), px.post), px.pre)       \* before the binary context
+PxAltCore(px) == ApplySuffixes(ApplyPrefixes(AtomTV(px.atom), px.pre), px.post)
+
+RECURSIVE Reduce(_, _, _)          \* n/d with n # 0 as m * 2^k, m odd, from n * 2^k
+Reduce(n, k, dummy) == IF n % 2 = 0 THEN Reduce(n \div 2, k + 1, dummy) ELSE [m |-> n, k |-> k]
+RECURSIVE Log2(_)
+Log2(d) == IF d = 1 THEN 0 ELSE 1 + Log2(d \div 2)
+
+TVResult(tv) ==
+  CASE tv.ty = "err" -> [t |-> "typeerr"]
+    [] tv.ty \in FloatTy ->
+         IF tv.n = 0 THEN [t |-> "float", ty |-> tv.ty, neg |-> FALSE, zero |-> TRUE, m |-> 0, k |-> 0]
+         ELSE LET r == Reduce(Abs(tv.n), 0 - Log2(tv.d), 0)
+              IN [t |-> "float", ty |-> tv.ty, neg |-> tv.n < 0, zero |-> FALSE, m |-> r.m, k |-> r.k]
+    [] tv.ty = "i64"  -> [t |-> "int", neg |-> tv.n < 0, abs |-> Abs(tv.n)]
+    [] tv.ty = "bool" -> [t |-> "bool", b |-> tv.n = 1]
+    [] OTHER -> [t |-> "any"]       \* strings, records, options, unclaimed: not observed
+
+PxWellFormed(px) ==
+  /\ px.atom \in Atoms /\ px.ctx \in Contexts
+  /\ \A i \in 1..Len(px.pre) : px.pre[i] \in UnOps
+  /\ \A i \in 1..Len(px.post) : px.post[i] \in Suffixes
+PxExpected(px) == IF PxWellFormed(px) THEN TVResult(PxVal(px)) ELSE [t |-> "any"]
+(* a -0.0 cannot be told from the rational 0: such results are not claimed as negative zero *)
+
+-----------------------------------------------------------------------------
+(* Blocks in expression position.  A block { stmts; e } is an expression    *)
+(* with the value of e wherever an expression may stand, whatever its first *)
+(* token is; { ident: e, .. } and {} are record literals.                   *)
+(*   bx = [pos |-> position, kind |-> what the block starts with,           *)
+(*         wrap |-> number of additional enclosing blocks]                  *)
+(* environment of the probing function: x = 5, b = true, o = Some(4)        *)
+BlockKinds == {"fstr", "fstr_interp_first", "fstr_multibyte", "fstr_plain", "str", "num", "ident", "paren", "neg", "not",
+               "if", "match", "nested", "let", "call", "true", "list", "record", "empty"}
+BlockPositions == {"let", "arg", "operand", "arm", "ifcond", "tail", "ret", "listel", "assign", "fstr_interp"}
+IntR(v) == [t |-> "int", neg |-> v < 0, abs |-> Abs(v)]
+BoolR(b) == [t |-> "bool", b |-> b]
+StrR(cps) == [t |-> "str", cps |-> cps]
+(* value of the block's final expression *)
+BlockInner(kind) ==
+  CASE kind = "fstr" -> StrR(<<97, 53>>)                 \* f"a{x}"
+    [] kind = "fstr_interp_first" -> StrR(<<53, 98>>)    \* f"{x}b"
+    [] kind = "fstr_multibyte" -> StrR(<<233, 32, 53>>)  \* f"é {x}"
+    [] kind = "fstr_plain" -> StrR(<<104, 105>>)         \* f"hi"
+    [] kind = "str" -> StrR(<<97, 98>>)                  \* "ab"
+    [] kind = "num" -> IntR(7)
+    [] kind = "ident" -> IntR(5)                         \* x
+    [] kind = "paren" -> IntR(5)                         \* (x)
+    [] kind = "neg" -> IntR(0 - 5)                       \* -x
+    [] kind = "not" -> BoolR(FALSE)                      \* !b
+    [] kind = "if" -> IntR(1)                            \* if b { 1 } else { 2 }
+    [] kind = "match" -> IntR(4)                         \* match o { Some(y) => y, None => 0 }
+    [] kind = "nested" -> IntR(7)                        \* { 7 }
+    [] kind = "let" -> IntR(3)                           \* let z: i64 = 3; z
+    [] kind = "call" -> IntR(3)                          \* idi(3)
+    [] kind = "true" -> BoolR(TRUE)
+    [] kind = "list" -> IntR(2)                          \* [1, 2]   observed through .len()
+    [] kind = "record" -> IntR(1)                        \* record literal { a: 1 }  observed through .a
+    [] kind = "empty" -> [t |-> "unit"]                  \* {}
+Scalar(kind) == kind \notin {"list", "record", "empty"}
+BlockExpected(bx) ==
+  IF bx.kind \notin BlockKinds \/ bx.pos \notin BlockPositions \/ bx.wrap \notin 0..8 THEN [t |-> "any"]
+  ELSE LET v == BlockInner(bx.kind) IN
+  CASE bx.pos \in {"arg", "arm", "tail", "ret"} -> IF Scalar(bx.kind) THEN v ELSE [t |-> "any"]
+    [] bx.pos = "let" -> IF bx.kind = "empty" THEN IntR(7) ELSE v       \* let v = {}; 7
+    [] bx.pos = "operand" ->                        \* 1 + _ ,  "p" + _ ,  true && _
+         IF ~Scalar(bx.kind) THEN [t |-> "any"]
+         ELSE IF v.t = "int" THEN IntR(1 + (IF v.neg THEN 0 - v.abs ELSE v.abs))
+         ELSE IF v.t = "str" THEN StrR(<<112>> \o v.cps) ELSE BoolR(v.b)
+    [] bx.pos = "ifcond" -> IntR(1)                 \* if _ == _ { 1 } else { 2 }
+    [] bx.pos \in {"listel", "assign"} -> IntR(7)   \* let l = [_]; 7     let v = _; v = _; 7
+    [] bx.pos = "fstr_interp" ->                    \* f"<{_}>"  (to_string of the value)
+         IF v.t = "str" THEN StrR(<<60>> \o v.cps \o <<62>>) ELSE [t |-> "any"]
 =============================================================================
